@@ -457,7 +457,11 @@ def check_property(prop, tier, seed):
     os.makedirs(os.path.join(ROOT, 'evidence'), exist_ok=True)
     with open(os.path.join(ROOT, 'evidence', prop + '.json'), 'w') as fh:
         json.dump(ev, fh, indent=1)
+    printed = set()
     for kf, fl in known_printed:
+        if fl['oid'] in printed:
+            continue
+        printed.add(fl['oid'])
         print('KNOWN-FINDING: property=%s %s %s' % (prop, fl['oid'], kf['text']))
     for u in undecided:
         print('UNDECIDED reason=%s' % u)
